@@ -1,5 +1,109 @@
 import XsVerif.Driver.Util
-open Lean XsVerif.Driver
+import XsVerif.Model.Identity
+open Lean XsVerif.Driver XsVerif.Identity
 
--- stub: replaced when the model of C08 lands
-def main : IO Unit := XsVerif.Driver.run fun _ => .error "C08 driver not implemented"
+namespace XsVerif.Driver.C08
+
+def parseTy (j : Json) : Except String (Option Ty) :=
+  match j with
+  | .null => pure none
+  | .str "integer" => pure (some .integer)
+  | .str "decimal" => pure (some .decimal)
+  | .str "boolean" => pure (some .boolean)
+  | .str "string" => pure (some .string)
+  | .str "qname" => pure (some .qname)
+  | _ => throw "ty"
+
+def parseStep (j : Json) : Except String Step := do
+  let s ← j.getStr?
+  return if s == "." then .self else if s == "*" then .any else .child s
+
+def parsePath (j : Json) : Except String Path := do
+  let steps ← (← getArr j "s").toList.mapM parseStep
+  let a ← match j.getObjVal? "a" with
+    | .ok (.str s) => pure (some s)
+    | _ => pure none
+  return { desc := ← getBool j "d", steps, attr := a }
+
+def parseAttr (j : Json) : Except String Attr := do
+  let a ← j.getArr?
+  if h : a.size = 4 then
+    return { name := ← a[0].getStr?, lex := ← a[1].getStr?, ty := ← parseTy a[2], idk := ← a[3].getNat? }
+  else throw "attr"
+
+/-- fuel = nesting depth bound of the JSON document (exhaustion is an error, never a verdict) -/
+def parseNode : Nat → Json → Except String Node
+  | 0, _ => throw "fuel"
+  | f + 1, j => do
+    let kids ← (← getArr j "k").toList.mapM (parseNode f)
+    let attrs ← (← getArr j "a").toList.mapM parseAttr
+    return .mk (← getNat j "i") (← getNat j "d") (← getStr j "n") attrs
+      (← parseTy (← j.getObjVal? "t")) (← getStr j "x") kids
+
+def parseKind (s : String) : Except String Kind :=
+  match s with
+  | "unique" => pure .unique | "key" => pure .key | "keyref" => pure .keyref | _ => throw "kind"
+
+def natList (j : Json) (k : String) : Except String (List Nat) := do
+  (← getArr j k).toList.mapM (·.getNat?)
+
+def parseCon (j : Json) : Except String Con := do
+  let sel ← (← getArr j "sel").toList.mapM parsePath
+  let fields ← (← getArr j "fields").toList.mapM fun f => do (← f.getArr?).toList.mapM parsePath
+  let refer ← match j.getObjVal? "refer" with
+    | .ok (.num n) => pure (some n.mantissa.toNat)
+    | _ => pure none
+  return { id := ← getNat j "id", kind := ← parseKind (← getStr j "kind"), sel, fields, refer,
+           bound := ← natList j "bound" }
+
+def parsePair (j : Json) : Except String (String × String) := do
+  let a ← j.getArr?
+  if h : a.size = 2 then return (← a[0].getStr?, ← a[1].getStr?) else throw "pair"
+
+def parseSchema (j : Json) : Except String Schema := do
+  let cons ← (← getArr j "cons").toList.mapM parseCon
+  let decls ← (← getArr j "decls").toList.mapM fun d => do
+    let a ← d.getArr?
+    if h : a.size = 2 then
+      let l ← (← a[1].getArr?).toList.mapM (·.getNat?)
+      return ((← a[0].getNat?), l)
+    else throw "decl"
+  let ns ← (← getArr j "ns").toList.mapM parsePair
+  return { cons, declCons := decls, ns }
+
+def nat (n : Nat) : Json := Json.num n
+def nats (l : List Nat) : Json := Json.arr (l.map nat).toArray
+
+def errJ : Err → Json
+  | .dup c n => Json.arr #["dup", nat c, nat n, nat 0]
+  | .missing c n i => Json.arr #["missing", nat c, nat n, nat i]
+  | .multi c n i => Json.arr #["multi", nat c, nat n, nat i]
+  | .notfound c s t => Json.arr #["notfound", nat c, nat s, nat t]
+
+def clauseJ : Clause → Json
+  | .dup => "dup" | .missing => "missing" | .multi => "multi" | .notfound => "notfound"
+
+def idErrJ : IdErr → Json
+  | .dup v => Json.arr #["iddup", v]
+  | .dangling v => Json.arr #["idref", v]
+
+def handle (j : Json) : Except String Json := do
+  let sch ← parseSchema (← j.getObjVal? "schema")
+  let root ← parseNode 4096 (← j.getObjVal? "doc")
+  if !lexOk sch root then throw "badlex"
+  let st := runDoc sch root
+  let o := specClauses sch root
+  return Json.mkObj [
+    ("m", Json.mkObj [("errs", Json.arr (st.errs.reverse.map errJ).toArray), ("crash", st.crash),
+                      ("nested", nats st.nested.eraseDups)]),
+    ("o", Json.arr (o.eraseDups.map fun (c, cl) => Json.arr #[nat c, clauseJ cl]).toArray),
+    ("id", Json.arr ((idRun (idEvents root)).map idErrJ).toArray),
+    ("flags", Json.mkObj [
+      ("spread", Json.arr ((referSpread sch root).map fun (c, m) => Json.arr #[nat c, nat m]).toArray),
+      ("conflict", conflict sch root),
+      ("partialUnique", nats (partialUnique sch root)),
+      ("strq", nats (strQName sch root))])]
+
+end XsVerif.Driver.C08
+
+def main : IO Unit := XsVerif.Driver.run XsVerif.Driver.C08.handle
